@@ -5,6 +5,7 @@ package stream
 import (
 	"errors"
 	"sync"
+	"time"
 
 	"github.com/Trendyol/go-dcp/config"
 	"github.com/Trendyol/go-dcp/couchbase"
@@ -119,8 +120,11 @@ func (c *vfClient) CloseStream(vbID uint16) error {
 }
 
 func (c *vfClient) GetDcpAgentConfigSnapshot() (*gocbcore.ConfigSnapshot, error) {
-	return nil, errors.New("no snapshot in replay")
+	// usable only under replay/run_gocb.sh (BucketUUID is made nil-safe by overlay)
+	return &gocbcore.ConfigSnapshot{}, nil
 }
+
+var _ = errors.New
 
 type vfDiscovery struct{ ids []uint16 }
 
@@ -140,6 +144,7 @@ func newReplayStream(ids []uint16, consumer *vfConsumer, md *vfMetadata, cl *vfC
 	cfg := &config.Dcp{}
 	cfg.RollbackMitigation.Disabled = true
 	cfg.Checkpoint.Type = "manual"
+	cfg.Dcp.Group.Membership.RebalanceDelay = time.Hour
 	s := &stream{
 		client:                     cl,
 		metadata:                   md,
